@@ -119,6 +119,28 @@ pub fn plan_c09(thorough: bool) -> Plan {
             }
         }
     }
+    // large prior values on a cold store: blind overwrites / deletes of values with 16 and 18
+    // overflow pages (more than the 15 page numbers an overflow cell holds) right after a reopen
+    // that reads nothing back, so the reverse-delta worker has to fetch the prior value through
+    // an uncached leaf
+    {
+        let big = vec![
+            vec![c(vec![w(0, 70000), w(1, 1), w(2, 61381)])],
+            vec![c(vec![w(0, 5)])],
+            vec![c(vec![del(0), del(2)])],
+            vec![c(vec![w(2, 70000), w(3, 1333)])],
+            vec![json!({"rb": 1})],
+            vec![json!({"rb": 2})],
+            vec![json!({"reopen": {"cold": true}})],
+        ];
+        let cfg = rb_cfg(3, 0);
+        for (ops, n) in sequences(&big, if thorough { 5 } else { 4 }) {
+            // only sequences that contain a cold reopen are new here
+            if ops.iter().any(|o| o.get("reopen").is_some()) {
+                cases.push(case("empty", vec!["U4"], &cfg, "noproof", ops, n, true));
+            }
+        }
+    }
     // explicit overlay chains: an ancestor deletes / rewrites a key that exists on disk and a
     // descendant writes it blindly or after reading; both committed; rolled back step by step
     for (a, b) in [
@@ -160,6 +182,9 @@ pub fn reopen_menu() -> Vec<Value> {
         json!({"prepopulate": true, "upper_levels": 3}),
         json!({"io_workers": 3}),
         json!({"buckets": 1000, "seed": 99}),
+        // same configuration, but nothing is read back after the reopen: the next operation
+        // finds every cache empty
+        json!({"cold": true}),
     ]
 }
 
